@@ -105,7 +105,7 @@ def body(run):
     run.cov["rule"] = ("one case per TLC initial state (node, direction, reference type, IncludeSubtypes, class mask); "
                        "class = direction x null/typed x subtypes flag x mask/no mask x empty/non-empty answer x "
                        "relation to the pre-repair prediction x phase; synthetic space exhaustively, standard nodes by seeded draws, "
-                       "the same 270 queries before and after each of two groups of AddSubtype/AddRef additions")
+                       "the same 960 queries before and after each of two groups of client reads + AddSubtype/AddRef additions")
     run.assumptions += [
         "the oracle is relative to the node's own reference list and the HasSubtype references read in-process "
         "(server.VerifNodeRefs); the NodeSet import itself is not checked",
